@@ -148,6 +148,9 @@ def _load_from_file_system(hashed_grammar, path, p_time, cache_path=None):
     except FileNotFoundError:
         return None
     else:
+        if p_time > module_cache_item.change_time:
+            # The file was modified after it had been read for this entry.
+            return None
         _set_cache_item(hashed_grammar, path, module_cache_item)
         LOG.debug('pickle loaded: %s', path)
         return module_cache_item.node
@@ -169,13 +172,20 @@ def _set_cache_item(hashed_grammar, path, module_cache_item):
     parser_cache.setdefault(hashed_grammar, {})[path] = module_cache_item
 
 
-def try_to_save_module(hashed_grammar, file_io, module, lines, pickling=True, cache_path=None):
+def try_to_save_module(hashed_grammar, file_io, module, lines, pickling=True, cache_path=None,
+                       change_time=None):
+    """
+    :param change_time: The modification time of the file when it was read. If
+        it's not given, the current modification time is used.
+    """
     path = file_io.path
     try:
         p_time = None if path is None else file_io.get_last_modified()
     except OSError:
         p_time = None
         pickling = False
+    if change_time is not None and p_time is not None:
+        p_time = min(p_time, change_time)
 
     item = _NodeCacheItem(module, lines, p_time)
     _set_cache_item(hashed_grammar, path, item)
